@@ -202,7 +202,7 @@ def report(prop, res, known, tier, seed, extra_cov, assumptions, t0, rule, sampl
             continue
         path = os.path.join(core.VERIF, "replays", "%s-%s.json" % (prop, sig))
         with open(path, "w") as fh:
-            json.dump({"property": prop, "clause": clause, "where": v.get("where"), "msg": v.get("msg"),
+            json.dump({"property": prop, "kind": "layout", "clause": clause, "where": v.get("where"), "msg": v.get("msg"),
                        "case": {k: x for k, x in case.items() if k != "case"},
                        "group": [{k: x for k, x in c.items() if k != "case"} for c in res.cases.values()
                                  if case.get("g") and c.get("g") == case["g"]]}, fh, indent=1)
